@@ -662,6 +662,11 @@ func (b *bitstream) ReadTimestamp() (Timestamp, error) {
 		}
 	}
 
+	if precision == TimestampNoPrecision {
+		// Only an offset was present: a timestamp has at least a year.
+		return Timestamp{}, &SyntaxError{"invalid timestamp - year is missing", b.pos}
+	}
+
 	nsecs := 0
 	overflow := false
 	fractionPrecision := uint8(0)
